@@ -66,6 +66,14 @@ def gen(rng, tier):
                     data = elfgen.patch(data, meta, "shdr", "sh_size", rng.choice([0, 4, 7] if h["sh_type"] == 5 else [0, 8, 15]), k)
         if hs and rng.random() < 0.12:
             data = streamgen.odd_shstrtab(rng, data, meta)
+        if hs and rng.random() < 0.15:       # a .dynamic section holding no whole entry while PT_DYNAMIC designates the real table
+            for k, h in enumerate(hs):
+                if h and h["sh_type"] == 6:
+                    data = elfgen.patch(data, meta, "shdr", "sh_size", rng.choice([0, 1, 7]), k)
+        if hs and rng.random() < 0.15:       # relocation sections whose sh_entsize is not the structure size
+            for k, h in enumerate(hs):
+                if h and h["sh_type"] in (4, 9):
+                    data = elfgen.patch(data, meta, "shdr", "sh_entsize", rng.choice([0, 1, 8, 12, 16, 24, 25]), k)
         ps0 = fileq.py_phdrs(o0, data) if o0 else None
         if ps0 and rng.random() < 0.25:     # the PT_DYNAMIC segment designates bytes outside the file while the .dynamic section is fine
             for j, ph in enumerate(ps0):
